@@ -72,3 +72,9 @@ Lemma go_set_length {A} (l l' : list A) i x : go_set l i x = Ok l' -> length l' 
 Proof.
   unfold go_set. destruct ((0 <=? i)%Z && (i <? zlen l)%Z); intros H; inversion H. apply upd_length.
 Qed.
+
+(* case analysis on whatever condition the source has at this point: the model's conditions are
+   generated from the same Go expressions, so after unfolding both sides test the same term and a
+   behaviour-preserving change of the operator does not disturb the proof *)
+Ltac case_if :=
+  match goal with |- context[if ?c then _ else _] => destruct c eqn:? end.
